@@ -491,7 +491,23 @@ class PlanJoinTablesQuery:
             elif table2 is not None:
                 data_conditions.append([arg1, arg2])
 
-        query_traversal(fetch_table.join_condition, _check_conditions)
+        def _collect_binary_ops(node, **kwargs):
+            if isinstance(node, BinaryOperation) and node.op != '=':
+                binary_ops.add(node.op.lower())
+
+        query_traversal(fetch_table.join_condition, _collect_binary_ops)
+
+        def _check_conjuncts(node):
+            # only a top-level conjunct of the join condition restricts the rows of the table:
+            # a comparison under NOT, OR, a function or IS NULL does not
+            if isinstance(node, BinaryOperation) and node.op.lower() == 'and':
+                for arg in node.args:
+                    _check_conjuncts(arg)
+            else:
+                _check_conditions(node)
+
+        if fetch_table.join_condition is not None:
+            _check_conjuncts(fetch_table.join_condition)
 
         binary_ops.discard('and')
         if len(binary_ops) > 0:
